@@ -1,64 +1,467 @@
-use anda_kip::*;
+//! C15 driver: the real KIP parsers (`anda_kip::parse_kip / parse_kql / parse_kml / parse_meta / parse_json`,
+//! `validate_command`, serde of the AST) against the verdicts TLC computed from KipBudget.tla / KipGrammar.tla.
+//!
+//!   drive_kip run lex  <cases.jsonl>     supervisor: every word of MC_KipBudget, scaled around the limit
+//!   drive_kip run tree <cases.jsonl>     supervisor: sentences + token mutations of MC_KipGrammar, then a smoke run
+//!   drive_kip worker <mode> <file> <from>   (internal) one child process; a stack overflow kills only the child
+//!
+//! The driver knows SPELLING only (how a token is written, which whitespace / comments / letter case may vary);
+//! which tokens a command consists of, its class, whether it is valid, its nesting depth and what the budget check
+//! must say all come from the case file.  Every case runs on a thread with a small fixed stack (C15_STACK_KB,
+//! default 512 KiB), every parser call under catch_unwind, every case under a wall-clock bound (C15_CASE_SECS).
+//! One JSON line per mismatch, a final {"summary":true,...} line.
+use anda_kip::{Command, KipError, KipErrorCode, parse_json, parse_kip, parse_kml, parse_kql, parse_meta, validate_command};
+use serde_json::{Value, json};
+use std::collections::HashMap;
+use std::io::{BufRead, BufReader, Write};
+use std::sync::Arc;
+use std::time::{Duration, Instant};
 
-fn on_stack<T: Send + 'static>(kb: usize, f: impl FnOnce() -> T + Send + 'static) -> T {
-    std::thread::Builder::new().stack_size(kb * 1024).spawn(f).unwrap().join().unwrap()
+const MAX_LEN: usize = 256 * 1024;
+
+// ---------------------------------------------------------------------------------------------------------------
+// spelling tables
+
+/// Concrete spelling of the named string literals (the text BETWEEN the quotes, already escaped).
+fn string_table() -> HashMap<&'static str, String> {
+    let mut m = HashMap::new();
+    m.insert("plain", "Drug".to_string());
+    m.insert("empty", String::new());
+    m.insert("T", "T".to_string());
+    m.insert("PURGE", "PURGE".to_string());
+    m.insert("purge", "purge".to_string());
+    m.insert("escquote", r#"say \"hi\""#.to_string());
+    m.insert("trailbs", r#"C:\\"#.to_string());
+    m.insert("onlybs", r#"\\"#.to_string());
+    m.insert("bsquote", r#"\\\""#.to_string());
+    m.insert("opens", "([{".to_string());
+    m.insert("closes", ")]}".to_string());
+    m.insert("slashes", "http://a/b".to_string());
+    m.insert("comment", "// no [".to_string());
+    m.insert("escslash", r#"\/"#.to_string());
+    m.insert("nlesc", r#"a\nb\tc"#.to_string());
+    m.insert("uesc", r#"\u0041\ud83d\ude00"#.to_string());
+    m.insert("unicode", "日本語 🦀 é ü\u{a0}\u{2003}".to_string());
+    m.insert("keyword", "FIND WHERE LIMIT".to_string());
+    m.insert("quotebr", r#"\"[("#.to_string());
+    m.insert("huge", "a".repeat(200_000));
+    m
 }
 
-fn show(label: &str, text: &str) {
-    let r = parse_kip(text);
-    match &r {
-        Ok(c) => {
-            let js = serde_json::to_string(c).unwrap();
-            let back: Result<Command, _> = serde_json::from_str(&js);
-            println!("{label}: OK rt={:?}", back.as_ref().map(|b| b == c).map_err(|e| e.to_string()));
+fn raw_table() -> HashMap<&'static str, &'static str> {
+    HashMap::from([
+        ("quote", "\""),
+        ("bslash", "\\"),
+        ("slash", "/"),
+        ("dslash", "//"),
+        ("nl", "\n"),
+        ("lp", "("),
+        ("lb", "["),
+        ("lc", "{"),
+        ("rp", ")"),
+        ("rb", "]"),
+        ("rc", "}"),
+        ("junk", "@"),
+        ("semi", ";"),
+        ("word", "trailing"),
+        ("find", "FIND"),
+        ("nul", "\u{0}"),
+        ("emoji", "🦀"),
+        ("cmt", "// it's \"quoted [ {\n"),
+        ("strfrag", "\"[\\\""),
+    ])
+}
+
+fn number_table() -> HashMap<&'static str, &'static str> {
+    HashMap::from([
+        ("0", "0"),
+        ("1", "1"),
+        ("2", "2"),
+        ("3", "3"),
+        ("5", "5"),
+        ("42", "42"),
+        ("-7", "-7"),
+        ("0.5", "0.5"),
+        ("1e3", "1e3"),
+        ("-0", "-0"),
+        ("u64max", "18446744073709551615"),
+        ("i64min", "-9223372036854775808"),
+        ("2.5E-3", "2.5E-3"),
+        ("1.0", "1.0"),
+        ("1.5e300", "1.5e300"),
+    ])
+}
+
+/// The scanner symbol of a character (KipBudget.tla's alphabet); runs of "x" collapse.
+fn sym(c: char) -> &'static str {
+    match c {
+        '(' => "lp",
+        '[' => "lb",
+        '{' => "lc",
+        ')' => "rp",
+        ']' => "rb",
+        '}' => "rc",
+        '"' => "q",
+        '\\' => "bs",
+        '/' => "sl",
+        '\n' => "nl",
+        _ => "x",
+    }
+}
+fn abstraction(text: &str) -> Vec<&'static str> {
+    let mut out: Vec<&'static str> = Vec::new();
+    for c in text.chars() {
+        let s = sym(c);
+        if s == "x" && out.last() == Some(&"x") {
+            continue;
         }
-        Err(e) => println!("{label}: ERR {:?} {}", e.code, &e.message.chars().take(160).collect::<String>()),
+        out.push(s);
+    }
+    out
+}
+
+struct Tables {
+    strs: HashMap<&'static str, String>,
+    raws: HashMap<&'static str, &'static str>,
+    nums: HashMap<&'static str, &'static str>,
+}
+
+impl Tables {
+    fn new() -> Self {
+        Tables {
+            strs: string_table(),
+            raws: raw_table(),
+            nums: number_table(),
+        }
+    }
+    /// Refuse to run unless every spelling has exactly the lexical content the specification assumes.
+    fn check_against(&self, table: &Value) -> Result<(), String> {
+        for (kind, names) in [("str", table["str"].as_object()), ("raw", table["raw"].as_object())] {
+            let names = names.ok_or("TABLE line has no str/raw object")?;
+            for (name, body) in names {
+                let want: Vec<String> = body.as_array().unwrap().iter().map(|s| s.as_str().unwrap().to_string()).collect();
+                let text: String = if kind == "str" {
+                    self.strs.get(name.as_str()).ok_or(format!("no spelling for string {name}"))?.clone()
+                } else {
+                    self.raws.get(name.as_str()).ok_or(format!("no spelling for raw {name}"))?.to_string()
+                };
+                let got: Vec<String> = abstraction(&text).into_iter().map(String::from).collect();
+                if got != want {
+                    return Err(format!("spelling of {kind} {name} abstracts to {got:?}, the specification says {want:?}"));
+                }
+            }
+        }
+        Ok(())
     }
 }
 
-fn main() {
-    let a: Vec<String> = std::env::args().collect();
-    let kb: usize = a.get(1).map(|s| s.parse().unwrap()).unwrap_or(1024);
-    for d in [10usize, 30, 40, 50, 58, 60, 61, 62] {
-        let arr = format!("{}1{}", "[".repeat(d), "]".repeat(d));
-        let t = format!("DESCRIBE ACCESS WITH {{ a: {arr} }}");
-        on_stack(kb, move || show(&format!("arr{d}"), &t));
-    }
-    for d in [60usize, 62, 63] {
-        let arr = format!("{}1{}", "[".repeat(d), "]".repeat(d));
-        let t = format!("FIND(?x) WHERE {{ ?x {{a: {arr}}} }}");
-        on_stack(kb, move || show(&format!("match-arr{d}"), &t));
-        let t = format!("FIND(?x) WHERE {{ {} ?x {{a: 1}} {} }}", "NOT {".repeat(d), "}".repeat(d));
-        on_stack(kb, move || show(&format!("not{d}"), &t));
-        let t = format!("FIND(?x) WHERE {{ {} ?x {} }}", "(?a, \"p\", ".repeat(d), ")".repeat(d));
-        on_stack(kb, move || show(&format!("prop{d}"), &t));
-        let t = format!("FIND(?x) WHERE {{ FILTER({} ?x == 1 {}) }}", "(".repeat(d - 1), ")".repeat(d - 1));
-        on_stack(kb, move || show(&format!("fparen{d}"), &t));
-        let t = format!("FIND(?x) WHERE {{ ?x {{a: {} 1 {} }} }}", "{b: ".repeat(d - 1), "}".repeat(d - 1));
-        on_stack(kb, move || show(&format!("obj{d}"), &t));
-        let t = format!(
-            "UPDATE :x SET ATTRIBUTES {{ a: {} 1 {} }}",
-            "ADD(1, ".repeat(d - 1),
-            ")".repeat(d - 1)
-        );
-        on_stack(kb, move || show(&format!("upd{d}"), &t));
-    }
-    for n in [60usize, 63, 64, 65] {
-        let t = format!("FIND(?x) WHERE {{ FILTER({} ?x == 1) }}", "!".repeat(n));
-        on_stack(kb, move || show(&format!("bang{n}"), &t));
-        let t = format!("FIND(?x) WHERE {{ FILTER(?x == 1 {}) }}", "&& ?x == 1 ".repeat(n));
-        on_stack(kb, move || show(&format!("and{n}"), &t));
-        let t = format!("FIND(?x) WHERE {{ FILTER(?x == {} ?x.a) }}", "- ".repeat(n));
-        on_stack(kb, move || show(&format!("neg{n}"), &t));
-    }
-    show("quant-glued", r#"FIND(?x) WHERE { (?x, "p"{1,3}, ?y) }"#);
-    show("quant-ws", r#"FIND(?x) WHERE { (?x, "p" {1,3}, ?y) }"#);
-    show("quant-inner-ws", r#"FIND(?x) WHERE { (?x, "p"{ 1 , 3 }, ?y) }"#);
-    show("nbsp", "FIND\u{a0}(?x) WHERE { ?x {a: 1} } ORDER BY ?x");
-    show("nbsp-words", "FIND(?x) WHERE { ?x {a: 1} } ORDER\u{a0}BY ?x");
-    show("float", "FIND(?x) WHERE { ?x {a: 0.1, b: 1e22, c: 5e-324, d: 1.7976931348623157e308, e: 0.3, f: 123456789.12345678} }");
-    for f in ["2.2250738585072011e-308", "9007199254740993.0", "0.000001", "1e23", "8.41e21", "2.4703282292062327e-324", "4.35", "1.0e-5", "100.0", "1E5", "-0.0", "-0", "1.5e300"] {
-        show(&format!("float {f}"), &format!("DESCRIBE TYPE {f}"));
-    }
-    show("tightkw", r#"FIND(?x)WHERE{?x{a:1}}LIMIT 10CURSOR:c"#);
+// ---------------------------------------------------------------------------------------------------------------
+// tokens -> text
+
+#[derive(Clone, Copy, PartialEq, Debug)]
+enum Variant {
+    Canon,
+    Lower,
+    Mixed,
+    Spaced,
+    Comments,
+    Tight,
+    Edges,
 }
+const VARIANTS: [Variant; 6] = [Variant::Lower, Variant::Mixed, Variant::Spaced, Variant::Comments, Variant::Tight, Variant::Edges];
+
+fn flip_case(s: &str) -> String {
+    s.chars()
+        .map(|c| if c.is_ascii_lowercase() { c.to_ascii_uppercase() } else if c.is_ascii_uppercase() { c.to_ascii_lowercase() } else { c })
+        .collect()
+}
+fn mixed_case(s: &str, salt: usize) -> String {
+    s.chars()
+        .enumerate()
+        .map(|(i, c)| if (i + salt) % 2 == 0 { c.to_ascii_lowercase() } else { c.to_ascii_uppercase() })
+        .collect()
+}
+
+const COMMENT_BODIES: [&str; 12] = [
+    " plain",
+    " \"",
+    " [({",
+    " )]}",
+    " \\",
+    "// nested",
+    " FIND WHERE }",
+    " 日本語 🦀",
+    " \"unterminated [",
+    " \\\"",
+    "",
+    " /* not a block */ '",
+];
+const SPACES: [&str; 7] = ["  ", "\n", "\t", "\r\n", " \n  ", "\n\n", " \t "];
+
+fn tok_text(t: &Tables, tok: &Value, v: Variant, salt: usize) -> Result<String, String> {
+    let class = tok[0].as_str().ok_or("token without class")?;
+    let word = |s: &str| match v {
+        Variant::Lower => s.to_ascii_lowercase(),
+        Variant::Mixed => mixed_case(s, salt),
+        _ => s.to_string(),
+    };
+    Ok(match class {
+        "kw" | "fn" => word(tok[1].as_str().unwrap()),
+        "id" | "idg" | "p" | "pg" | "lit" => tok[1].as_str().unwrap().to_string(),
+        "var" => format!("?{}", tok[1].as_str().unwrap()),
+        "par" => format!(":{}", tok[1].as_str().unwrap()),
+        "str" => format!("\"{}\"", t.strs.get(tok[1].as_str().unwrap()).ok_or("unknown string name")?),
+        "num" => t.nums.get(tok[1].as_str().unwrap()).ok_or(format!("unknown number name {}", tok[1]))?.to_string(),
+        "raw" => t.raws.get(tok[1].as_str().unwrap()).ok_or("unknown raw name")?.to_string(),
+        "run" => tok_text(t, &tok[2], v, salt)?.repeat(tok[1].as_u64().unwrap() as usize),
+        "rung" => {
+            let mut one = String::new();
+            for g in tok[2].as_array().unwrap() {
+                one.push_str(&tok_text(t, g, v, salt)?);
+                one.push(' ');
+            }
+            let mut s = one.repeat(tok[1].as_u64().unwrap() as usize);
+            s.pop();
+            s
+        }
+        "flip" => flip_case(&tok_text(t, &tok[1], Variant::Canon, salt)?),
+        "pad" => "\u{1}PAD\u{1}".to_string(),
+        other => return Err(format!("unknown token class {other}")),
+    })
+}
+
+fn is_glued(tok: &Value) -> bool {
+    matches!(tok[0].as_str(), Some("pg") | Some("idg"))
+}
+fn is_punct(tok: &Value) -> bool {
+    match tok[0].as_str() {
+        Some("p") | Some("pg") => true,
+        Some("run") => is_punct(&tok[2]),
+        _ => false,
+    }
+}
+
+fn render(t: &Tables, toks: &[Value], v: Variant, salt: usize) -> Result<String, String> {
+    let mut out = String::new();
+    if v == Variant::Comments {
+        out.push_str("// leading \"comment [\n");
+    }
+    if v == Variant::Edges {
+        out.push_str(" \n// lead\n\t");
+    }
+    if v == Variant::Spaced {
+        out.push_str("\n  ");
+    }
+    for (i, tok) in toks.iter().enumerate() {
+        if i > 0 && !is_glued(tok) {
+            match v {
+                Variant::Canon | Variant::Lower | Variant::Mixed | Variant::Edges => out.push(' '),
+                Variant::Spaced => out.push_str(SPACES[(i + salt) % SPACES.len()]),
+                Variant::Comments => {
+                    out.push_str(if (i + salt) % 3 == 0 { " //" } else { "//" });
+                    out.push_str(COMMENT_BODIES[(i + salt) % COMMENT_BODIES.len()]);
+                    out.push('\n');
+                }
+                Variant::Tight => {
+                    if !(is_punct(tok) || is_punct(&toks[i - 1])) {
+                        out.push(' ');
+                    }
+                }
+            }
+        }
+        out.push_str(&tok_text(t, tok, v, salt + i)?);
+    }
+    match v {
+        Variant::Comments => out.push_str(" // trailing ] \" without newline"),
+        Variant::Edges => out.push_str("\n\n// done }"),
+        Variant::Spaced => out.push_str(" \t\n"),
+        _ => {}
+    }
+    // padding: fill to exactly the requested number of bytes
+    if let Some(pad) = toks.iter().find(|x| x[0] == "pad") {
+        let total = pad[2].as_u64().unwrap() as usize;
+        let kind = pad[1].as_str().unwrap();
+        let marker = "\u{1}PAD\u{1}";
+        let rest = out.len() - marker.len();
+        if total < rest + 8 {
+            return Err("pad target smaller than the sentence".into());
+        }
+        let need = total - rest;
+        let fill = match kind {
+            "space" => {
+                let mut s = String::with_capacity(need);
+                for i in 0..need {
+                    s.push(if i % 61 == 60 { '\n' } else if i % 17 == 16 { '\t' } else { ' ' });
+                }
+                s
+            }
+            "comment" => {
+                let mut s = String::from("//");
+                let body = " [\"{(\\ ";
+                while s.len() + 1 < need {
+                    let room = need - 1 - s.len();
+                    s.push_str(&body[..room.min(body.len())]);
+                }
+                s.push('\n');
+                s
+            }
+            _ => {
+                let line = "// ] \" }\n";
+                let mut s = String::new();
+                while s.len() + line.len() <= need {
+                    s.push_str(line);
+                }
+                while s.len() < need {
+                    s.push(' ');
+                }
+                s
+            }
+        };
+        out = out.replacen(marker, &fill, 1);
+        if out.len() != total {
+            return Err(format!("padding produced {} bytes, wanted {total}", out.len()));
+        }
+    }
+    Ok(out)
+}
+
+// ---------------------------------------------------------------------------------------------------------------
+// observing the parsers
+
+#[derive(Clone, Debug)]
+enum Obs {
+    Ok(Box<Command>),
+    Err(KipErrorCode, String),
+    Panic(String),
+}
+impl Obs {
+    fn class(&self) -> &'static str {
+        match self {
+            Obs::Ok(c) => match **c {
+                Command::Kql(_) => "kql",
+                Command::Kml(_) => "kml",
+                Command::Meta(_) => "meta",
+            },
+            Obs::Err(KipErrorCode::ResourceExhausted, _) => "refused",
+            Obs::Err(..) => "err",
+            Obs::Panic(_) => "panic",
+        }
+    }
+    fn same(&self, other: &Obs) -> bool {
+        match (self, other) {
+            (Obs::Ok(a), Obs::Ok(b)) => a == b,
+            (Obs::Err(c1, m1), Obs::Err(c2, m2)) => c1 == c2 && m1 == m2,
+            _ => false,
+        }
+    }
+    fn brief(&self) -> String {
+        match self {
+            Obs::Ok(_) => format!("Ok({})", self.class()),
+            Obs::Err(c, m) => format!("Err({}: {})", c.name(), m.chars().take(140).collect::<String>()),
+            Obs::Panic(m) => format!("PANIC({})", m.chars().take(200).collect::<String>()),
+        }
+    }
+}
+
+fn panic_text(p: Box<dyn std::any::Any + Send>) -> String {
+    if let Some(s) = p.downcast_ref::<&str>() {
+        s.to_string()
+    } else if let Some(s) = p.downcast_ref::<String>() {
+        s.clone()
+    } else {
+        "non-string panic payload".into()
+    }
+}
+
+fn guard<T>(f: impl FnOnce() -> Result<T, KipError>, wrap: impl FnOnce(T) -> Command) -> Obs {
+    match std::panic::catch_unwind(std::panic::AssertUnwindSafe(f)) {
+        Ok(Ok(v)) => Obs::Ok(Box::new(wrap(v))),
+        Ok(Err(e)) => Obs::Err(e.code, e.message),
+        Err(p) => Obs::Panic(panic_text(p)),
+    }
+}
+
+struct Four {
+    kip: Obs,
+    kql: Obs,
+    kml: Obs,
+    meta: Obs,
+}
+fn four(text: &str) -> Four {
+    Four {
+        kip: guard(|| parse_kip(text), |c| c),
+        kql: guard(|| parse_kql(text), Command::Kql),
+        kml: guard(|| parse_kml(text), Command::Kml),
+        meta: guard(|| parse_meta(text), Command::Meta),
+    }
+}
+fn json_class(text: &str) -> &'static str {
+    match std::panic::catch_unwind(|| parse_json(text)) {
+        Ok(Ok(_)) => "ok",
+        Ok(Err(e)) if e.code == KipErrorCode::ResourceExhausted => "refused",
+        Ok(Err(_)) => "err",
+        Err(_) => "panic",
+    }
+}
+
+/// KipGrammar.tla `Agree`, applied to observed classes.
+fn agree(f: &Four) -> Option<String> {
+    let (kip, kql, kml, meta) = (f.kip.class(), f.kql.class(), f.kml.class(), f.meta.class());
+    let bad = |why: &str| Some(format!("{why}: parse_kip={kip} parse_kql={kql} parse_kml={kml} parse_meta={meta}"));
+    if [kip, kql, kml, meta].contains(&"panic") {
+        return bad("panic");
+    }
+    let r = kip == "refused";
+    if (kql == "refused") != r || (kml == "refused") != r || (meta == "refused") != r {
+        return bad("the resource refusal is not common to all entry points");
+    }
+    if (kip == "kql") != (kql == "kql") || (kip == "kml") != (kml == "kml") || (kip == "meta") != (meta == "meta") {
+        return bad("the general entry point disagrees with a specific one");
+    }
+    if let (Obs::Ok(a), Some(b)) = (
+        &f.kip,
+        match kip {
+            "kql" => Some(&f.kql),
+            "kml" => Some(&f.kml),
+            "meta" => Some(&f.meta),
+            _ => None,
+        },
+    ) {
+        if let Obs::Ok(b) = b {
+            if a != b {
+                return bad("the general and the specific entry point return different trees");
+            }
+        }
+    }
+    None
+}
+
+/// Re-validation and serde round trip of an accepted tree.  Returns (mismatch kind, detail).
+fn accepted_checks(c: &Command) -> Vec<(&'static str, String)> {
+    let mut out = Vec::new();
+    match std::panic::catch_unwind(|| validate_command(c)) {
+        Ok(Ok(())) => {}
+        Ok(Err(e)) => out.push(("revalidate", format!("validate_command refuses the parser's own output: {}: {}", e.code.name(), e.message))),
+        Err(p) => out.push(("panic", format!("validate_command panicked: {}", panic_text(p)))),
+    }
+    match std::panic::catch_unwind(|| serde_json::to_string(c)) {
+        Ok(Ok(js)) => match std::panic::catch_unwind(|| serde_json::from_str::<Command>(&js)) {
+            Ok(Ok(back)) => {
+                if &back != c {
+                    out.push(("roundtrip", format!("decode(encode(tree)) differs from tree; json = {}", js.chars().take(400).collect::<String>())));
+                }
+            }
+            Ok(Err(e)) => {
+                let msg = e.to_string();
+                let kind = if msg.contains("recursion limit") { "roundtrip_recursion_limit" } else { "roundtrip" };
+                out.push((kind, format!("the encoded tree does not decode: {msg} (json {} bytes)", js.len())));
+            }
+            Err(p) => out.push(("panic", format!("serde decode panicked: {}", panic_text(p)))),
+        },
+        Ok(Err(e)) => out.push(("roundtrip", format!("the tree does not encode: {e}"))),
+        Err(p) => out.push(("panic", format!("serde encode panicked: {}", panic_text(p)))),
+    }
+    out
+}
+
+include!("drive_kip_checks.rs");
